@@ -171,8 +171,25 @@ type Item { id: ID }
 type Query { node: Node  list: NodeList  item: Item  li: ListItem }
 ";
 
+/// Names that are prefixes, case variants or homonyms of one another and of keywords, built-in types and directives.
+pub const NAMES: &str = "
+interface Node { id: ID  Node: Int }
+interface NodeX implements Node { id: ID  Node: Int  x: Int }
+type NodeXY implements NodeX & Node { id: ID  Node: Int  x: Int  y: Int  type: Type  Type: Type }
+type Type { name: String  Name: String  names: [String]  node: Node }
+enum Color { RED  Red  Color  Type  Int }
+input Type2 { Type: Type2  type: Int  Int: Int }
+union U = NodeXY | Type
+union Single = Type
+scalar include
+directive @Type(if: Boolean) on FIELD | QUERY
+directive @skipX(if: Boolean!) repeatable on FIELD | FRAGMENT_SPREAD | INLINE_FRAGMENT
+type Query { node: Node  Node: Node  query: Query  type(type: Type2, Type: Color, Int: Int = 1): Type  fragment: Int  on: Int  u: U  single: Single  nodes(first: Int): [NodeXY!]  inc: include }
+";
+
 pub fn pool() -> Vec<(&'static str, String)> {
     vec![
+        ("names", format!("{}{}", PRELUDE, NAMES)),
         ("test", format!("{}{}", TEST_SCHEMA, PRELUDE)),
         ("rich", format!("{}{}", PRELUDE, RICH)),
         ("explicit", format!("{}{}", PRELUDE, EXPLICIT)),
